@@ -181,9 +181,10 @@ def role_table(ctx, chk, rule, q, best, worst):
         chk.violation(rule, where, "the strategy table starts as `%s`" % show(init), expected="[None] * len(self.state_list)",
                       found=show(init), construct="%s table init" % f.short)
         return
-    if L.source != slist or not L.whole or L.has_break or L.has_return or L.cont != FALSE:
+    if L.source != slist or not L.whole or L.has_break or L.has_return:
+        # (a `continue` skips the rest of one iteration, not a state: what it skips shows in the update term below)
         chk.violation(rule, f.where(L.node), "the dispatch loop does not visit the whole state list (`%s`%s)" % (
-            show(L.source), ", early exit" if (L.has_break or L.has_return or L.cont != FALSE) else ""),
+            show(L.source), ", early exit" if (L.has_break or L.has_return) else ""),
             expected="for state in self.state_list", found=norm_stmt(L.node), construct="%s loop coverage" % f.short)
         return
     acc = ("acc", L.id, v)
@@ -201,6 +202,23 @@ def role_table(ctx, chk, rule, q, best, worst):
     want2 = simp(("ite", cond("Player 2"), entry(worst), simp(("ite", cond("Player 1"), entry(best), acc))))
     if u in (want1, want2):
         chk.ok(rule, f.where(L.node), "Player 1 -> %s, Player 2 -> %s, probabilistic -> None; stored at state.idx; whole state list" % (best, worst))
+        return
+    # the same table written differently (guard clauses with `continue`, a method picked first and called afterwards): compare
+    # the update case by case on the owner of the state
+    from ..symx import subst, deep_simp
+    pl = ("attr", st, "player")
+
+    def norm(t):
+        # a bound method that is called is a method call
+        return subst(t, lambda x: ("mcall", x[1][1], x[1][2], x[2], x[3]) if x[0] == "apply" and len(x) == 4 and x[1][0] == "attr" else None)
+    cases = {"Player 1": entry(best), "Player 2": entry(worst), "<any other owner>": acc}
+    same = True
+    for owner, want in cases.items():
+        got = norm(deep_simp(subst(u, lambda x: C(owner) if x == pl else None)))
+        if got != want:
+            same = False
+    if same and not any(t == pl for t in _sub(init)):
+        chk.ok(rule, f.where(L.node), "Player 1 -> %s, Player 2 -> %s, any other owner -> None (case by case on state.player); stored at state.idx; whole state list" % (best, worst))
         return
     # diagnose: which part differs
     calls = [t for t in _sub(u) if t[0] == "mcall" and t[2] in (best, worst)]
